@@ -740,7 +740,7 @@ func runC13(c *Ctx) {
 	}
 	var scope []*ssa.Function
 	// New's two accumulator closures are one-sided by design (a Drop moves only the left side); they are compared as a mirrored pair below
-	scope = append(scope, newFn, addCtx, unify)
+	scope = append(scope, addCtx, unify)
 	scope = append(scope, addCtx.AnonFuncs...)
 	scope = append(scope, unify.AnonFuncs...)
 	for _, fn := range scope {
@@ -807,49 +807,217 @@ func runC13(c *Ctx) {
 			}
 		}
 	}
-	// the two accumulator closures in New are mirror images, and every arm uses them symmetrically
-	var addl, addr *ssa.Function
-	for _, an := range newFn.AnonFuncs {
-		st := 0
-		leftish := false
-		allInstrs(an, func(in ssa.Instruction) {
-			if s, ok := in.(*ssa.Store); ok {
-				st++
-				if fa, ok := s.Addr.(*ssa.FieldAddr); ok {
-					if _, f := fieldVarOf(fa); f.Name() == "LEnd" || f.Name() == "LStart" {
-						leftish = true
+	// ---- New: the chunk's end on each side moves together with the running position of that side, by the
+	// number of lines of that side the edit carries
+	ruleNewCursorPair(c, newFn, chunkT)
+}
+
+// ruleNewCursorPair (part of R-LR-MIRROR, for mdiff.New and its closures).  New keeps two running
+// positions (into Left and Right).  Necessary for "the chunk's edits consume exactly [LStart,LEnd) / produce
+// [RStart,REnd)": (a) a chunk is started at the running positions — LStart and LEnd from the left one, RStart
+// and REnd from the right one; (b) whenever an end field is advanced by D, the running position of the same
+// side is advanced by the same D in the same block; (c) D is the number of X lines for the left side and of
+// Y lines for the right side of the edit (or 0).
+func ruleNewCursorPair(c *Ctx, newFn *ssa.Function, chunkT *types.Named) {
+	name := fnName(newFn)
+	fns := append([]*ssa.Function{newFn}, newFn.AnonFuncs...)
+	// resolve a free variable of a closure to the captured cell of New
+	capt := map[ssa.Value]ssa.Value{}
+	allInstrs(newFn, func(in ssa.Instruction) {
+		if mc, ok := in.(*ssa.MakeClosure); ok {
+			fn := mc.Fn.(*ssa.Function)
+			for i, b := range mc.Bindings {
+				if i < len(fn.FreeVars) {
+					capt[fn.FreeVars[i]] = b
+				}
+			}
+		}
+	})
+	cell := func(addr ssa.Value) ssa.Value {
+		if b, ok := capt[addr]; ok {
+			addr = b
+		}
+		if al, ok := addr.(*ssa.Alloc); ok && isIntType(al.Type().Underlying().(*types.Pointer).Elem()) {
+			return al
+		}
+		return nil
+	}
+	// posOf: the identity of the running position a value reads
+	posOf := func(v ssa.Value) ssa.Value {
+		if a, ok := loadAddr(v); ok {
+			return cell(a)
+		}
+		if ph, ok := v.(*ssa.Phi); ok && isIntType(ph.Type()) {
+			return ph
+		}
+		return nil
+	}
+	side := map[string]string{"LStart": "L", "LEnd": "L", "RStart": "R", "REnd": "R"}
+	sidePos := map[string]map[ssa.Value]bool{"L": {}, "R": {}}
+	type dstore struct {
+		st    *ssa.Store
+		fn    *ssa.Function
+		field string
+		d     ssa.Value
+	}
+	var deltas []dstore
+	for _, fn := range fns {
+		allInstrs(fn, func(in ssa.Instruction) {
+			st, ok := in.(*ssa.Store)
+			if !ok {
+				return
+			}
+			fa, ok := st.Addr.(*ssa.FieldAddr)
+			if !ok || !isNamedOrigin(fa.X.Type(), chunkT) {
+				return
+			}
+			_, f := fieldVarOf(fa)
+			sd, ok := side[f.Name()]
+			if !ok {
+				return
+			}
+			if bo, ok := st.Val.(*ssa.BinOp); ok && bo.Op == token.ADD {
+				if _, f2 := loadedField(bo.X); f2 != nil && sameField(f2, f) {
+					deltas = append(deltas, dstore{st, fn, f.Name(), bo.Y})
+					return
+				}
+			}
+			if _, isC := st.Val.(*ssa.Const); isC {
+				return // the initial literal
+			}
+			if p := posOf(st.Val); p != nil {
+				sidePos[sd][p] = true
+			} else {
+				c.undecided("R-LR-MIRROR", fmt.Sprintf("%s:%s=%s", name, f.Name(), ksym(st.Val)), st.Pos(), "a chunk range field is set from something that is neither a running position nor an advance of itself")
+			}
+		})
+	}
+	c.sawFn(name)
+	var lp, rp ssa.Value
+	okStart := len(sidePos["L"]) == 1 && len(sidePos["R"]) == 1
+	for p := range sidePos["L"] {
+		lp = p
+	}
+	for p := range sidePos["R"] {
+		rp = p
+	}
+	if okStart && lp == rp {
+		okStart = false
+	}
+	c.judge(okStart, "R-LR-MIRROR", name+":chunk starts at the running positions", newFn.Pos(), "LStart/LEnd start from the left position, RStart/REnd from the right one", "a new chunk's LStart/LEnd and RStart/REnd are not set from one left and one (different) right running position: a range starts at the wrong side's offset")
+	if !okStart {
+		return
+	}
+	// every advance of an end field is paired with the same advance of that side's position
+	if len(deltas) == 0 {
+		c.undecided("R-LR-MIRROR", name+":end advances", newFn.Pos(), "no advance of LEnd/REnd found in New")
+		return
+	}
+	// leaves of an advance amount: through φ, and through closure parameters to the arguments at the call sites
+	var leaves func(v ssa.Value, fn *ssa.Function, seen map[ssa.Value]bool, out *[]ssa.Value)
+	leaves = func(v ssa.Value, fn *ssa.Function, seen map[ssa.Value]bool, out *[]ssa.Value) {
+		if seen[v] {
+			return
+		}
+		seen[v] = true
+		switch x := v.(type) {
+		case *ssa.Phi:
+			for _, e := range x.Edges {
+				leaves(e, fn, seen, out)
+			}
+			return
+		case *ssa.Parameter:
+			if fn != newFn {
+				idx := -1
+				for i, p := range fn.Params {
+					if p == x {
+						idx = i
+					}
+				}
+				found := false
+				allInstrs(newFn, func(in ssa.Instruction) {
+					call, ok := in.(*ssa.Call)
+					if !ok || idx < 0 || idx >= len(call.Call.Args) {
+						return
+					}
+					if mc, ok := call.Call.Value.(*ssa.MakeClosure); ok && mc.Fn == ssa.Value(fn) {
+						found = true
+						leaves(call.Call.Args[idx], newFn, seen, out)
+					}
+				})
+				if found {
+					return
+				}
+			}
+		}
+		*out = append(*out, v)
+	}
+	for _, d := range deltas {
+		sd := side[d.field]
+		want := lp
+		wantField, sideName := "X", "left"
+		if sd == "R" {
+			want, wantField, sideName = rp, "Y", "right"
+		}
+		key := fmt.Sprintf("%s:%s advances with the %s position", name, d.field, sideName)
+		paired, wrong := false, false
+		for _, in := range d.st.Block().Instrs {
+			switch x := in.(type) {
+			case *ssa.Store:
+				cl := cell(x.Addr)
+				if cl == nil {
+					continue
+				}
+				if bo, ok := x.Val.(*ssa.BinOp); ok && bo.Op == token.ADD && bo.Y == d.d {
+					if a, ok := loadAddr(bo.X); ok && cell(a) == cl {
+						if cl == want {
+							paired = true
+						} else {
+							wrong = true
+						}
+					}
+				}
+			case *ssa.BinOp:
+				if x.Op == token.ADD && x.Y == d.d {
+					if ph, ok := x.X.(*ssa.Phi); ok {
+						if ssa.Value(ph) == want {
+							paired = true
+						} else if isIntType(ph.Type()) && (ssa.Value(ph) == lp || ssa.Value(ph) == rp) {
+							wrong = true
+						}
 					}
 				}
 			}
-		})
-		if st == 0 {
-			continue
 		}
-		if leftish {
-			addl = an
-		} else {
-			addr = an
-		}
-	}
-	if addl != nil && addr != nil {
-		body := func(fn *ssa.Function) []string {
-			var out []string
-			allInstrs(fn, func(in ssa.Instruction) {
-				if s, ok := in.(*ssa.Store); ok {
-					out = append(out, ksym(s.Addr)+"="+ksym(s.Val))
+		var ls []ssa.Value
+		leaves(d.d, d.fn, map[ssa.Value]bool{}, &ls)
+		amountOK := len(ls) > 0
+		amt := ""
+		for _, l := range ls {
+			if isConstInt(l, 0) {
+				continue
+			}
+			okLeaf := false
+			if ln, ok := isBuiltinCall(l, "len"); ok {
+				if _, f := loadedField(ln.Call.Args[0]); f != nil && f.Name() == wantField && isEditType(f.Pkg().Scope().Lookup("Edit").Type()) {
+					okLeaf = true
 				}
-			})
-			sort.Strings(out)
-			return out
+			}
+			if !okLeaf {
+				amountOK = false
+				amt = ksym(l)
+			}
 		}
-		l, r := body(addl), body(addr)
-		for i := range l {
-			l[i] = mirror.Replace(l[i])
+		switch {
+		case !paired && wrong:
+			c.bad("R-LR-MIRROR", key, d.st.Pos(), "the "+sideName+" end of the chunk is advanced together with the OTHER side's running position: the chunk range and the position it was started from drift apart")
+		case !paired:
+			c.bad("R-LR-MIRROR", key, d.st.Pos(), "the "+sideName+" end of the chunk is advanced without advancing the "+sideName+" running position by the same amount in the same block")
+		case !amountOK:
+			c.bad("R-LR-MIRROR", key, d.st.Pos(), "the "+sideName+" range is advanced by "+amt+", not by the number of "+wantField+" lines of the edit")
+		default:
+			c.ok("R-LR-MIRROR", key, d.st.Pos(), "paired with the same advance of the "+sideName+" position; amount is len(e."+wantField+") or 0")
 		}
-		sort.Strings(l)
-		c.judge(strings.Join(l, ";") == strings.Join(r, ";"), "R-LR-MIRROR", "mdiff.New:addl~addr", addl.Pos(), "the left and right accumulators are mirror images", "the left and right range accumulators of New are not mirror images of each other")
-	} else {
-		c.undecided("R-LR-MIRROR", "mdiff.New:addl~addr", newFn.Pos(), "accumulator closures not recognised")
 	}
 }
 
